@@ -97,3 +97,14 @@ func (tc *TypeCtx) mapTypeFact(x string, u *types.Map) string {
 }
 
 var mapTypeTags = map[*TypeCtx][]*types.Map{}
+
+// extMapLenEmpty: where the code takes len(m) of a map, a result of 0 means that m has no entry (the length component ML and the
+// has-component are otherwise unrelated in the model; every real map state satisfies this).
+func (fr *Frame) extMapLenEmpty(mt *types.Map, m, l string, st *State) {
+	fc := fr.fc
+	mh, _ := fc.mapComps(mt)
+	ks := fc.tc.sortOf(mt.Key())
+	has := app("select", fc.comp(st, mh, fc.comps[mh]), m)
+	fc.assume("true", implies(and(not(eq(m, nilPtr)), eq(l, "0")),
+		fmt.Sprintf("(forall ((vk %s)) (! (not (select %s vk)) :pattern ((select %s vk))))", ks, has, has)))
+}
